@@ -51,3 +51,76 @@ class Ctx:
 
 def fshort(body):
     return T.short_path(body["def_path"])
+
+
+# ------------------------------------------------------------------------------------------------ necessary conditions
+# A property's check also evaluates the rules of other properties that are *necessary conditions* of it (a region can
+# only be deleted correctly if its element is judged ready correctly, parsed by the tag grammar, tokenised and paired ...).
+# They are reported under the depending property as `<P>.D:<rule>`; the reason is part of the message.
+
+DEPENDS = {
+    "C02": [("c05", ["C05.R1", "C05.R2", "C05.R3"], "a region may be deleted only if its element is ready: the expiry decision"),
+            ("c06", ["C06.R1", "C06.R2", "C06.R3"], "a region may be deleted only if its element is ready: marker / skip decision"),
+            ("c09", ["C09.R1"], "readiness is read from attributes: the tag grammar"),
+            ("c08", ["C08."], "deleted extents are token boundaries: tag recognition"),
+            ("c10", ["C10."], "deleted extents are pairs of tags: pairing")],
+    "C03": [("c05", ["C05.R1", "C05.R2", "C05.R3"], "a ready element must be recognised as ready: the expiry decision"),
+            ("c06", ["C06.R1", "C06.R2", "C06.R3"], "a ready element must be recognised as ready: marker / skip decision"),
+            ("c09", ["C09.R1"], "readiness is read from attributes: the tag grammar"),
+            ("c08", ["C08."], "a ready element must be tokenised as a tag"),
+            ("c10", ["C10."], "a ready element must be paired with its closing tag"),
+            ("c15", ["C15.R1"], "every marker that was built is deleted from the text")],
+    "C04": [("c05", ["C05.R1", "C05.R2", "C05.R3"], "nothing is ready => nothing changes: the expiry decision"),
+            ("c06", ["C06.R1", "C06.R2", "C06.R3"], "nothing is ready => nothing changes: marker / skip decision"),
+            ("c09", ["C09.R1"], "malformed / quoted values must not become ready: the tag grammar"),
+            ("c08", ["C08."], "unterminated tags are text: tag recognition"),
+            ("c10", ["C10."], "unclosed elements are not elements: pairing"),
+            ("c20", ["C20.R4", "C20.R5", "C20.R6"], "at the command line: the result is written unmodified, and the input is read before the output is created")],
+    "C06": [("c20", ["C20.R2"], "the target set given on the command line reaches the library as given"),
+            ("c09", ["C09.R1"], "the `name` value the decision reads is the one the tag grammar delivers")],
+    "C08": [("c07", ["C07.R4", "C07.R5"], "the tokens are those of the left-to-right scan")],
+    "C09": [("c06", ["C06.R1"], "a quoted value is opaque to the removal decision: the marker name is compared as a whole"),
+            ("c05", ["C05.R2"], "a quoted value is opaque to the removal decision: the `to` value is used as a whole"),
+            ("c10", ["C10.R5"], "a well-formed tag is parsed whatever its quoted values contain (e.g. the start delimiter)")],
+    "C11": [("c12", ["C12.R1"], "nothing else is removed: the dedent consumes only blanks in front of the first non-blank")],
+    "C13": [("c02", ["C02.R4"], "whole lines are deleted and nothing else: the byte tables of the line scanners")],
+    "C14": [("c12", ["C12.R4", "C12.R5"], "whitespace changes stay at the borders: head/tail pair indices and sorted block ranges"),
+            ("c04", ["C04.R2"], "whitespace changes stay at the borders: formatter ranges exist only at removed positions")],
+    "C15": [("c16", ["C16.R1"], "same first and last line numbers: both list forms render the same line map")],
+    "C18": [("c20", ["C20.R1"], "the delimiters given on the command line reach the library as given")],
+}
+
+
+def run_dependencies(ctx, res, prop):
+    import importlib
+    from .. import absint, report
+    from ..report import Finding
+    cache = ctx.__dict__.setdefault("_dep_cache", {})
+    n = 0
+    for modname, rules, why in DEPENDS.get(prop, []):
+        if modname not in cache:
+            mod = importlib.import_module("sa.rules." + modname)
+            r = report.Result(modname.upper(), "other")
+            r._no_deps = True
+            try:
+                mod.run(ctx, r)
+            except absint.Cannot as e:
+                r.cannot(modname.upper() + ".engine", "-", "cannot-interpret:" + str(e)[:100], str(e))
+            except T.AnchorMissing as e:
+                r.cannot(modname.upper() + ".anchor", "-", "anchor:" + str(e)[:100], str(e))
+            except Exception as e:   # fail closed
+                r.cannot(modname.upper() + ".internal", "-", "internal:" + type(e).__name__, repr(e))
+            cache[modname] = r
+        r = cache[modname]
+
+        def wanted(rule):
+            return any(rule == x or rule.startswith(x) for x in rules) or rule.endswith((".engine", ".anchor", ".internal"))
+        for f in r.findings:
+            if wanted(f.rule):
+                res.add(Finding("%s.D:%s" % (prop, f.rule), f.fn, f.site, "[necessary condition - %s] %s" % (why, f.message), loc=f.loc,
+                                cannot_analyse=f.cannot_analyse))
+        for rule, key, verdict in r.instances:
+            if verdict == "HOLDS" and wanted(rule):
+                n += 1
+        res.holds("%s.D" % prop, "-", "%s:%s" % (modname.upper(), ",".join(rules)), why)
+    return n
